@@ -53,6 +53,9 @@ type Core struct {
 
 	// A `stack` of labels to jump to if an exception is raised
 	ExceptionCatchLabels []CallFrame
+	// For each catch label: the state of the core when the handler was installed.
+	// Used to unwind call frames, frame memory and the operand stack when an exception is caught.
+	exceptionCatchStates []exceptionCatchState
 
 	// Points to the start of the current stackframe
 	// Then, the absolute index can be computed by adding the value of mp and the relative offset of the memory location.
@@ -61,6 +64,12 @@ type Core struct {
 	CancelCtx *context.Context
 	// Describes some resource limits for the current core
 	Limits CoreLimits
+}
+
+type exceptionCatchState struct {
+	callStackDepth int
+	stackDepth     int
+	memoryPointer  int64
 }
 
 type CoreLimits struct {
@@ -315,6 +324,15 @@ outer:
 					// If this was not the case, a function would basically "return twice",
 					// as the jump to the error-handling code would not pop the most current call frame.
 					catchLocation := self.ExceptionCatchLabels[len(self.ExceptionCatchLabels)-1]
+					if len(self.exceptionCatchStates) == len(self.ExceptionCatchLabels) {
+						// Unwind to the frame which installed the handler (the exception may have crossed several calls).
+						state := self.exceptionCatchStates[len(self.exceptionCatchStates)-1]
+						if state.callStackDepth <= len(self.CallStack) && state.stackDepth <= len(self.Stack) {
+							self.CallStack = self.CallStack[:state.callStackDepth]
+							self.Stack = self.Stack[:state.stackDepth]
+							self.MemoryPointer = state.memoryPointer
+						}
+					}
 					if self.callFrame().Function != catchLocation.Function {
 						self.popCallStack()
 					}
